@@ -1192,6 +1192,13 @@ fn evaluate_scalar_func(
             let arr = evaluated_args
                 .first()
                 .ok_or_else(|| QueryError::InvalidArgument("ABS requires 1 argument".into()))?;
+            if let Some(a) = arr.as_any().downcast_ref::<Int64Array>() {
+                if a.iter().flatten().any(|v| v == i64::MIN) {
+                    return Err(QueryError::Execution(
+                        "ABS: value out of range (-9223372036854775808)".into(),
+                    ));
+                }
+            }
             apply_math_unary_preserve_int(arr, |x| x.abs(), |x| x.abs())
         }
 
@@ -1670,7 +1677,7 @@ fn evaluate_scalar_func(
                         None
                     } else {
                         let s = str_arr.value(i);
-                        let target_len = get_int_value(len_arr, i).unwrap_or(0) as usize;
+                        let target_len = get_int_value(len_arr, i).unwrap_or(0).max(0) as usize;
                         let current_len = s.chars().count();
                         if current_len >= target_len {
                             Some(s.chars().take(target_len).collect::<String>())
@@ -1713,7 +1720,7 @@ fn evaluate_scalar_func(
                         None
                     } else {
                         let s = str_arr.value(i);
-                        let target_len = get_int_value(len_arr, i).unwrap_or(0) as usize;
+                        let target_len = get_int_value(len_arr, i).unwrap_or(0).max(0) as usize;
                         let current_len = s.chars().count();
                         if current_len >= target_len {
                             Some(s.chars().take(target_len).collect::<String>())
@@ -3347,13 +3354,25 @@ fn evaluate_scalar_func(
                 .as_any()
                 .downcast_ref::<StringArray>()
                 .ok_or_else(|| QueryError::Type("FROM_BASE requires string argument".into()))?;
-            let radix = get_int_value(&evaluated_args[1], 0).unwrap_or(10) as u32;
-
-            let result: Int64Array = str_arr
-                .iter()
-                .map(|opt| opt.and_then(|s| i64::from_str_radix(s, radix).ok()))
-                .collect();
-            Ok(Arc::new(result))
+            // Per row: NULL in, NULL out; the radix is validated (an unchecked
+            // radix panics inside `from_str_radix`).
+            let radix_arr = &evaluated_args[1];
+            let mut out: Vec<Option<i64>> = Vec::with_capacity(str_arr.len());
+            for i in 0..str_arr.len() {
+                let r = if radix_arr.len() == 1 { 0 } else { i };
+                if str_arr.is_null(i) || radix_arr.is_null(r) {
+                    out.push(None);
+                    continue;
+                }
+                let radix = get_int_value(radix_arr, r).unwrap_or(10);
+                if !(2..=36).contains(&radix) {
+                    return Err(QueryError::InvalidArgument(format!(
+                        "FROM_BASE radix must be between 2 and 36, got {radix}"
+                    )));
+                }
+                out.push(i64::from_str_radix(str_arr.value(i), radix as u32).ok());
+            }
+            Ok(Arc::new(Int64Array::from(out)))
         }
 
         ScalarFunction::ToBase => {
@@ -4177,7 +4196,11 @@ fn evaluate_scalar_func(
                         let dt = chrono::DateTime::from_timestamp_micros(micros)?;
                         let fmt = fmt_arr.value(i);
                         let chrono_fmt = convert_format(fmt);
-                        Some(dt.format(&chrono_fmt).to_string())
+                        // `to_string()` panics when chrono rejects a specifier
+                        use std::fmt::Write;
+                        let mut out = String::new();
+                        write!(out, "{}", dt.format(&chrono_fmt)).ok()?;
+                        Some(out)
                     })
                     .collect();
                 return Ok(Arc::new(result));
@@ -4193,7 +4216,13 @@ fn evaluate_scalar_func(
                         let date = chrono::NaiveDate::from_num_days_from_ce_opt(days + 719163)?;
                         let fmt = fmt_arr.value(i);
                         let chrono_fmt = convert_format(fmt);
-                        Some(date.format(&chrono_fmt).to_string())
+                        // A DATE is midnight of that day: time specifiers print
+                        // 00:00:00 instead of failing inside chrono's Display
+                        // (which `to_string()` turns into a panic).
+                        use std::fmt::Write;
+                        let mut out = String::new();
+                        write!(out, "{}", date.and_hms_opt(0, 0, 0)?.format(&chrono_fmt)).ok()?;
+                        Some(out)
                     })
                     .collect();
                 return Ok(Arc::new(result));
@@ -5108,7 +5137,7 @@ fn evaluate_scalar_func(
                 .iter()
                 .zip(right.iter())
                 .map(|(l, r)| match (l, r) {
-                    (Some(lv), Some(rv)) => Some(lv << (rv as u32)),
+                    (Some(lv), Some(rv)) => Some(if (0..64).contains(&rv) { lv << (rv as u32) } else { 0 }),
                     _ => None,
                 })
                 .collect();
@@ -5138,7 +5167,7 @@ fn evaluate_scalar_func(
                 .iter()
                 .zip(right.iter())
                 .map(|(l, r)| match (l, r) {
-                    (Some(lv), Some(rv)) => Some((lv as u64 >> (rv as u32)) as i64),
+                    (Some(lv), Some(rv)) => Some(if (0..64).contains(&rv) { (lv as u64 >> (rv as u32)) as i64 } else { 0 }),
                     _ => None,
                 })
                 .collect();
@@ -5172,7 +5201,7 @@ fn evaluate_scalar_func(
                 .iter()
                 .zip(right.iter())
                 .map(|(l, r)| match (l, r) {
-                    (Some(lv), Some(rv)) => Some(lv >> (rv as u32)),
+                    (Some(lv), Some(rv)) => Some(if (0..64).contains(&rv) { lv >> (rv as u32) } else if lv < 0 { -1 } else { 0 }),
                     _ => None,
                 })
                 .collect();
